@@ -454,3 +454,205 @@ Proof.
       (apply ws_quiet; [reflexivity|]); repeat split; auto.
   - apply ws_quiet; [reflexivity|]. repeat split; auto.
 Qed.
+
+(* ---- InvS: which salt every frame carries ------------------------------------------------------ *)
+
+Definition entry_salt (e : Z * nat * cause) : Z := fst (fst e).
+
+Record InvS (s : state2) : Prop := {
+  s_salt : salt (base s) = salt_at (length (wire (base s))) (adopt s);
+  s_store : store (base s) = map entry_salt (adopt s);
+  s_bound : forall x m c, In (x, m, c) (adopt s) -> (m <= length (wire (base s)))%nat;
+  s_wire : forall post w pre, wire (base s) = post ++ w :: pre -> w_salt w = salt_at (length pre) (adopt s);
+  s_rej : forall i, rejected (base s) i -> exists x m, In (x, m, CBadSalt i true) (adopt s);
+  s_sent : forall x m i, In (x, m, CBadSalt i true) (adopt s) -> sent_id (base s) i;
+  s_after : forall x m i w1 w2 post pre t k, In (x, m, CBadSalt i true) (adopt s) ->
+      wire (base s) = post ++ w2 :: pre -> In w1 (wire (base s)) -> w_id w1 = i ->
+      on_call w1 t k -> on_call w2 t k -> i < w_id w2 -> (m <= length pre)%nat
+}.
+
+Lemma InvS_init : forall c, InvS (init2 c).
+Proof.
+  intros c. constructor; simpl; unfold rejected, sent_id, wire; simpl; intros; try tauto.
+  destruct post; discriminate.
+Qed.
+
+Lemma salt_at_ge : forall ad n n', (forall x m c, In (x, m, c) ad -> (m <= n)%nat) -> (n <= n')%nat ->
+  salt_at n' ad = salt_at n ad.
+Proof.
+  intros ad n n' B Le. destruct ad as [|[[x m] c] r]; simpl; auto.
+  assert (M : (m <= n)%nat) by (eapply B; left; eauto).
+  destruct (Nat.leb_spec m n); [|lia]. destruct (Nat.leb_spec m n'); [auto|lia].
+Qed.
+
+Lemma split_len : forall (A : Type) (l post pre : list A) (w : A), l = post ++ w :: pre -> (length pre < length l)%nat.
+Proof. intros. subst. rewrite app_length. simpl. lia. Qed.
+
+Lemma InvS_step : forall s l s', Inv11 s -> InvS s -> step2 s l = Some s' -> InvS s'.
+Proof.
+  intros s l s' [IA IC IN IR] [Sa St Bo Wi Rj Se Af] H.
+  pose proof (step2_wire _ _ _ IA H) as W. destruct W as [W (A & B & C & D)|w W SW FR (A & B & C & D)|x c W A B C D E].
+  - (* quiet *) constructor; rewrite ?W, ?A, ?B, ?C; auto.
+    intros x m i X. destruct (Se _ _ _ X) as (w & W1 & W2). exists w. rewrite W. auto.
+  - (* a frame is written *)
+    constructor; rewrite ?W, ?A, ?B, ?C; auto.
+    + simpl length. rewrite Sa. symmetry. apply salt_at_ge; auto.
+    + intros x m c X. simpl. apply Bo in X. lia.
+    + intros post w0 pre E. destruct post as [|p post]; simpl in E; inversion E; subst.
+      * rewrite SW. auto.
+      * eapply Wi; eauto.
+    + intros x m i X. destruct (Se _ _ _ X) as (w' & W1 & W2). exists w'. rewrite W. simpl. auto.
+    + intros x m i w1 w2 post pre t k X E I1 I2 O1 O2 Lt.
+      destruct post as [|p post]; simpl in E; inversion E; subst.
+      * apply Bo in X. auto.
+      * destruct I1 as [I1|I1].
+        -- subst w1. destruct (Se _ _ _ X) as (w' & W1 & W2). apply FR in W1. lia.
+        -- eapply Af; eauto.
+  - (* a salt is adopted *)
+    constructor; rewrite ?W, ?A, ?B, ?C.
+    + simpl. rewrite Nat.leb_refl. auto.
+    + simpl. f_equal. auto.
+    + intros x0 m c0 [X|X]; [inversion X; auto|eauto].
+    + intros post w pre E0. simpl. pose proof (split_len _ _ _ _ _ E0) as LT.
+      destruct (Nat.leb_spec (length (wire (base s))) (length pre)); [lia|]. eapply Wi; eauto.
+    + intros i X. destruct (D _ X) as [Y|Y].
+      * destruct (Rj _ Y) as (x0 & m & Z). exists x0, m. right. auto.
+      * subst c. exists x, (length (wire (base s))). left. auto.
+    + intros x0 m i [X|X].
+      * inversion X; subst. destruct (E i eq_refl) as (_ & [t k] & I1).
+        destruct (c_owner _ IC _ _ _ I1) as (_ & _ & h & SR). apply sent_req_id in SR.
+        destruct SR as (w & W1 & W2). exists w. rewrite W. auto.
+      * destruct (Se _ _ _ X) as (w & W1 & W2). exists w. rewrite W. auto.
+    + intros x0 m i w1 w2 post pre t k [X|X] E0 I1 I2 O1 O2 Lt; [|eapply Af; eauto].
+      inversion X; subst. exfalso.
+      destruct (E _ eq_refl) as (_ & [t' k'] & I3).
+      destruct (c_owner _ IC _ _ _ I3) as (K & PP & h & SR).
+      destruct O1 as (h1 & O1).
+      assert (SR1 : sent_req (base s) (w_id w1) t k h1) by (exists w1; auto).
+      destruct (sent_req_unique _ _ _ _ _ _ _ _ IA SR SR1) as (E1 & E2 & _). subst t' k'.
+      assert (I4 : In w2 (wire (base s))) by (rewrite E0; apply in_or_app; right; left; auto).
+      rewrite <- E2 in O2.
+      destruct (r_cur _ IR _ _ _ I4 O2 PP) as [Y|[_ Y]]; lia.
+Qed.
+
+Lemma InvS_run : forall c ls s, run2 (init2 c) ls = Some s -> Inv11 s /\ InvS s.
+Proof.
+  intros c. apply (run2_invariant (fun s => Inv11 s /\ InvS s)).
+  - split; [apply Inv11_init|apply InvS_init].
+  - intros s l s' [I S] H. split; [eapply Inv11_step; eauto|eapply InvS_step; eauto].
+Qed.
+
+(* the salt a frame written after an adoption carries is that adoption's or a newer one's *)
+Lemma salt_at_newer : forall newer x m c older n, (m <= n)%nat ->
+  salt_at n (newer ++ (x, m, c) :: older) = x \/
+  exists e, In e newer /\ salt_at n (newer ++ (x, m, c) :: older) = entry_salt e.
+Proof.
+  induction newer as [|[[y q] d] r IH]; intros x m c older n Le; simpl.
+  - destruct (Nat.leb_spec m n); [auto|lia].
+  - destruct (Nat.leb q n).
+    + right. exists (y, q, d). auto.
+    + destruct (IH x m c older n Le) as [E|(e & E1 & E2)]; auto. right. exists e. auto.
+Qed.
+
+(* ---- C11, assembled ------------------------------------------------------------------------------ *)
+
+(* (1) the salt in force is the newest adoption, every adoption was written to the session store;
+   (2) every frame carries the salt of the newest adoption made before it was written;
+   (3) a call's request is on the wire a second time only after the server rejected the earlier frame
+       with bad_server_salt while its waiter was registered, and the later frame carries the salt of
+       that message or of a newer adoption;
+   (4) no waiter is told to retry twice for the same msg_id; a rejected id was really sent. *)
+Lemma rotation : forall c ls s, run2 (init2 c) ls = Some s ->
+  (salt (base s) = salt_at (length (wire (base s))) (adopt s) /\
+   store (base s) = map entry_salt (adopt s)) /\
+  (forall post w pre, wire (base s) = post ++ w :: pre -> w_salt w = salt_at (length pre) (adopt s)) /\
+  (forall w1 w2 post pre t k, wire (base s) = post ++ w2 :: pre -> In w1 (wire (base s)) ->
+     on_call w1 t k -> on_call w2 t k -> w_id w1 < w_id w2 ->
+     rejected (base s) (w_id w1) /\
+     exists x m newer older, adopt s = newer ++ (x, m, CBadSalt (w_id w1) true) :: older /\
+       (m <= length pre)%nat /\
+       (w_salt w2 = x \/ exists e, In e newer /\ w_salt w2 = entry_salt e)) /\
+  (NoDup (retries (elog (base s))) /\ forall i, rejected (base s) i -> sent_id (base s) i).
+Proof.
+  intros c ls s H. destruct (InvS_run _ _ _ H) as [[IA IC IN IR] IS].
+  split; [split; [apply (s_salt _ IS)|apply (s_store _ IS)]|].
+  split; [apply (s_wire _ IS)|]. split; [|split; [apply (n_once _ IN)|apply (n_sent _ IN)]].
+  intros w1 w2 post pre t k E I1 O1 O2 Lt.
+  assert (I2 : In w2 (wire (base s))) by (rewrite E; apply in_or_app; right; left; auto).
+  pose proof (r_pair _ IR _ _ _ _ I1 I2 O1 O2 Lt) as RJ. split; auto.
+  destruct (s_rej _ IS _ RJ) as (x & m & X).
+  pose proof (s_after _ IS _ _ _ _ _ _ _ _ _ X E I1 eq_refl O1 O2 Lt) as Le.
+  destruct (in_split _ _ X) as (newer & older & EA). exists x, m, newer, older.
+  split; auto. split; auto. rewrite (s_wire _ IS _ _ _ E), EA. apply salt_at_newer; auto.
+Qed.
+
+(* every completed call returned the payload of a result received for its own, newest, msg id;
+   that id was not rejected; nothing is handed out twice *)
+Lemma routing2 : forall c ls s, run2 (init2 c) ls = Some s ->
+  (forall t k i r, In (t, k, i, r) (rets (base s)) ->
+     exists h v,
+       sent_req (base s) i t k h /\
+       (forall t' k' h', sent_req (base s) i t' k' h' -> t' = t /\ k' = k /\ h' = h) /\
+       (forall w, In w (wire (base s)) -> on_call w t k -> w_id w <= i) /\
+       In (EDisp i v) (elog (base s)) /\ ret_of v = Some r /\
+       (vec_val v = true -> h = true) /\
+       ~ rejected (base s) i) /\
+  NoDup (map ret_id (rets (base s))) /\
+  NoDup (map ret_call (rets (base s))).
+Proof.
+  intros c ls s H. destruct (Inv11_run _ _ _ H) as [IA IC IN IR].
+  assert (MAIN : forall t k i r, In (t, k, i, r) (rets (base s)) ->
+     exists h v,
+       sent_req (base s) i t k h /\
+       (forall t' k' h', sent_req (base s) i t' k' h' -> t' = t /\ k' = k /\ h' = h) /\
+       (forall w, In w (wire (base s)) -> on_call w t k -> w_id w <= i) /\
+       In (EDisp i v) (elog (base s)) /\ ret_of v = Some r /\
+       (vec_val v = true -> h = true) /\
+       ~ rejected (base s) i).
+  { intros t k i r Hr. destruct (c_rets _ IC _ _ _ _ Hr) as [(h & v & S & D & RV & V) _].
+    exists h, v. split; auto. split.
+    - intros t' k' h' S'. destruct (sent_req_unique _ _ _ _ _ _ _ _ IA S S') as (X & Y & Z). auto.
+    - split; [intros w W O; eapply (r_ret _ IR); eauto|]. split; auto. split; auto. split; auto.
+      eapply (n_rets _ IN); eauto. }
+  split; auto. split; [apply (c_rets_nodup _ IC)|].
+  apply (NoDup_map_transfer _ _ _ ret_id ret_call); [apply (c_rets_nodup _ IC)|].
+  intros [[[t k] i] r] [[[t' k'] i'] r'] X Y Q. unfold ret_call, ret_id in *. simpl in *. inversion Q; subst.
+  destruct (MAIN _ _ _ _ X) as (h & v & (w & W1 & W2 & W3) & _ & LE & _).
+  destruct (MAIN _ _ _ _ Y) as (h' & v' & (w' & W1' & W2' & W3') & _ & LE' & _).
+  assert (w_id w' <= i) by (apply LE; auto; exists h'; auto).
+  assert (w_id w <= i') by (apply LE'; auto; exists h; auto). lia.
+Qed.
+
+(* one dispatch step on bad_server_salt / new_session_created *)
+Lemma decodes_service : forall hd b, (forall r g k p, strip b <> BResult r g k p) -> strip b <> BGarbage ->
+  decodes hd b = true.
+Proof.
+  intros hd b N G. unfold decodes. destruct (strip b); auto.
+  - destruct (N req gz k p); auto.
+Qed.
+
+Lemma bad_salt_step : forall s clk sid seq b ks i x, keyed s = true ->
+  rx (base s) = RDispatch (sid, seq, b) ks -> strip b = BBadSalt i x ->
+  exists s', step2 s (L1 (LStep ARx clk)) = Some s' /\
+    salt (base s') = x /\ store (base s') = x :: store (base s) /\
+    rx (base s') = match lookup i (table (base s)) with
+                   | Some _ => RNotify [i] (KTail sid seq :: ks)
+                   | None => settle (KTail sid seq :: ks) end /\
+    table (base s') = table (base s).
+Proof.
+  intros s clk sid seq b ks i x K R SB. eexists. split.
+  - simpl. rewrite K. simpl. unfold step_rx2. rewrite R. reflexivity.
+  - unfold dispatch2. rewrite decodes_service by (rewrite SB; discriminate). simpl. rewrite SB.
+    destruct (lookup i (table (base s))); simpl; auto.
+Qed.
+
+Lemma new_session_step : forall s clk sid seq b ks x, keyed s = true ->
+  rx (base s) = RDispatch (sid, seq, b) ks -> strip b = BNewSession x ->
+  exists s', step2 s (L1 (LStep ARx clk)) = Some s' /\
+    salt (base s') = x /\ store (base s') = x :: store (base s) /\
+    rx (base s') = settle (KTail sid seq :: ks).
+Proof.
+  intros s clk sid seq b ks x K R SB. eexists. split.
+  - simpl. rewrite K. simpl. unfold step_rx2. rewrite R. reflexivity.
+  - unfold dispatch2. rewrite decodes_service by (rewrite SB; discriminate). simpl. rewrite SB. simpl. auto.
+Qed.
